@@ -421,29 +421,18 @@ func GenAdmissionScenario(t *rapid.T, st *Stats, full bool) (*Scenario, admitInf
 	b = &Block{}
 	grade(b)
 	w.Commit(b) // start+4: conversions executed; rich holds every allowed asset
-	// conversions submitted at A-2, A-1, A execute at A-1, A, A+1
-	for w.H() < A-2 {
-		b = &Block{}
-		grade(b)
-		if which == 3 && rapid.IntRange(0, 2).Draw(t, "zeroEarly") == 0 {
-			func() {
-				if len(w.TopStakers()) < 25 {
-					return
-				}
-				vec := vectorFor(5, w.Price)
-				z := rapid.IntRange(2, 40).Draw(t, "earlyZeroAsset")
-				vec[z-1] *= 2
-				b.SPR = w.SPRSet(25, vec)
-			}()
-		}
-		w.Commit(b)
-	}
-	// PIP-10 family: some assets are zeroed by the 25% band rule in the blocks before A, so that
-	// their rate is zero (code -4) or, a little later, their average is unavailable
+	// PIP-10 family: one to three assets are zeroed by the 25% band rule in most of the blocks before A
+	// (and in some of the submitting blocks), so that their rate is zero (code -4) or, once the
+	// spot rate is back, their rolling average is still unavailable while the other side's is fine
 	zeroed := map[int]bool{}
+	var zlist []int
 	if which == 3 {
 		for j := 0; j < rapid.IntRange(1, 3).Draw(t, "nzero"); j++ {
-			zeroed[rapid.IntRange(2, 40).Draw(t, "zeroAsset")] = true
+			z := rapid.IntRange(2, 40).Draw(t, "zeroAsset")
+			if !zeroed[z] {
+				zeroed[z] = true
+				zlist = append(zlist, z)
+			}
 		}
 	}
 	sprZero := func(b *Block) {
@@ -451,10 +440,33 @@ func GenAdmissionScenario(t *rapid.T, st *Stats, full bool) (*Scenario, admitInf
 			return
 		}
 		vec := vectorFor(5, w.Price)
-		for z := range zeroed {
+		for _, z := range zlist {
 			vec[z-1] *= 2
 		}
 		b.SPR = w.SPRSet(25, vec)
+	}
+	// conversions submitted at A-2, A-1, A execute at A-1, A, A+1
+	for w.H() < A-2 {
+		b = &Block{}
+		grade(b)
+		if which == 3 {
+			switch rapid.IntRange(0, 5).Draw(t, "zeroEarly") {
+			case 0: // some other asset
+				func() {
+					if len(w.TopStakers()) < 25 {
+						return
+					}
+					vec := vectorFor(5, w.Price)
+					z := rapid.IntRange(2, 40).Draw(t, "earlyZeroAsset")
+					vec[z-1] *= 2
+					b.SPR = w.SPRSet(25, vec)
+				}()
+			case 1:
+			default:
+				sprZero(b)
+			}
+		}
+		w.Commit(b)
 	}
 	for i := 0; i < 3; i++ {
 		b = &Block{}
@@ -481,6 +493,14 @@ func GenAdmissionScenario(t *rapid.T, st *Stats, full bool) (*Scenario, admitInf
 					d = []int{TPEG, TFCT, 21, 30, 48, 58}[rapid.IntRange(0, 5).Draw(t, "hot")] // PEG, pFCT, pRVN, pDCR, pDOGE, pUGX
 					if d > nassets {
 						d = TFCT
+					}
+				}
+				if len(zlist) > 0 {
+					switch rapid.IntRange(0, 7).Draw(t, "zeroSide") {
+					case 0, 1: // into an asset whose rate / average is (or was) missing
+						d = zlist[rapid.IntRange(0, len(zlist)-1).Draw(t, "zd")]
+					case 2: // out of it
+						s = zlist[rapid.IntRange(0, len(zlist)-1).Draw(t, "zs")]
 					}
 				}
 				if s != d {
